@@ -50,8 +50,8 @@ _tmp = {}
 
 def setup(ctx):
     import gaddlemaps._cli as cli
-    for f in (cli.auto_map, cli.classify_files, cli.sort_molecules, cli.main):
-        _cov.watch(f)
+    for name in ('auto_map', 'classify_files', 'sort_molecules', 'main'):
+        _cov.watch_attr(cli, name)
     _cov.start()
     _tmp['dir'] = tempfile.mkdtemp(prefix='gmv_c20_')
 
